@@ -1496,80 +1496,6 @@ Proof.
   apply remove_lines_R0. assumption.
 Qed.
 
-(* ---------- SGR ---------- *)
-Definition sgr1 (n : Z) (a : rattr) : rattr :=
-  let '(mkRA fg bg bo ul bl rv) := a in
-  if n <=? 0 then ra0
-  else if n =? 1 then mkRA fg bg true ul bl rv
-  else if n =? 4 then mkRA fg bg bo true bl rv
-  else if n =? 5 then mkRA fg bg bo ul true rv
-  else if n =? 7 then mkRA fg bg bo ul bl true
-  else if n =? 24 then mkRA fg bg bo false bl rv
-  else if n =? 25 then mkRA fg bg bo ul false rv
-  else if n =? 27 then mkRA fg bg bo ul bl false
-  else if (30 <=? n) && (n <=? 37) then mkRA (Some (n - 30)) bg bo ul bl rv
-  else if n =? 39 then mkRA None bg bo ul bl rv
-  else if (40 <=? n) && (n <=? 47) then mkRA fg (Some (n - 40)) bo ul bl rv
-  else if n =? 49 then mkRA fg None bo ul bl rv
-  else a.
-
-Lemma sgr_cons n r a : sgr (n :: r) a = sgr r (sgr1 n a).
-Proof. destruct a. reflexivity. Qed.
-
-Lemma sgr_norm l : forall a, sgr l a = sgr (map (fun n => Z.max n 0) l) a.
-Proof.
-  induction l as [|n r IH]; intros a; [reflexivity|]. cbn [map]. rewrite !sgr_cons. rewrite IH. f_equal.
-  destruct a. unfold sgr1. destruct (n <=? 0) eqn:C.
-  - replace (Z.max n 0 <=? 0) with true by lia. reflexivity.
-  - replace (Z.max n 0) with n by lia. rewrite C. reflexivity.
-Qed.
-
-Definition sgr_values : list Z :=
-  [0; 1; 4; 5; 7; 24; 25; 27; 30; 31; 32; 33; 34; 35; 36; 37; 39; 40; 41; 42; 43; 44; 45; 46; 47; 49].
-
-(* the running values of sgi_to_attrspec's loop against the reference rendition *)
-Definition G_rel (g : sgi_t) (a : rattr) (cs : charset_t) (dc : bool) : Prop :=
-  g_fg g = r_fg a /\ g_bg g = r_bg a /\ g_bold g = r_bold a /\ g_ul g = r_ul a /\ g_blink g = r_blink a /\
-  g_so g = r_rev a /\ RA_ok a /\ (g_colors g = 1 \/ g_colors g = 16) /\
-  ((g_fg g <> None \/ g_bg g <> None) -> g_colors g = 16) /\ g_cs g = cs /\ g_dc g = dc.
-
-Lemma memz_in b l : memz b l = true -> In b l.
-Proof.
-  induction l; cbn [memz]; [discriminate|]. intros H. apply orb_prop in H. destruct H as [H|H].
-  - left. lia.
-  - right. auto.
-Qed.
-
-Ltac eval_cmp :=
-  repeat match goal with
-         | |- context [?a <=? ?b] =>
-             let r := eval vm_compute in (a <=? b) in
-             match r with true => idtac | false => idtac end; change (a <=? b) with r
-         | |- context [?a =? ?b] =>
-             let r := eval vm_compute in (a =? b) in
-             match r with true => idtac | false => idtac end; change (a =? b) with r
-         end.
-
-Lemma sgi_step_rel a g ra cs dc : In a sgr_values -> G_rel g ra cs dc -> G_rel (sgi_step1 a g) (sgr1 a ra) cs dc.
-Proof.
-  intros Ha (E1 & E2 & E3 & E4 & E5 & E6 & (O1 & O2) & Ec & Ei & Ecs & Edc).
-  destruct g as [fg bg colors bold ul blink so gcs gdc]. destruct ra as [rf rb rbo rul rbl rrv].
-  cbn [g_fg g_bg g_colors g_bold g_ul g_blink g_so g_cs g_dc r_fg r_bg r_bold r_ul r_blink r_rev] in *. subst.
-  unfold sgr_values in Ha. cbn [In] in Ha.
-  repeat (destruct Ha as [Ha|Ha]; [subst a; unfold G_rel, RA_ok, sgi_step1, sgr1, ra0; eval_cmp; cbn; repeat split; auto; try lia; try (intros [?|?]; try congruence; apply Ei; auto); try (destruct Ec; lia)|]).
-  contradiction.
-Qed.
-
-Lemma sgi_loop_rel l : forall g ra cs dc, Forall (fun a => In a sgr_values) l -> G_rel g ra cs dc ->
-  G_rel (sgi_loop l g) (sgr l ra) cs dc.
-Proof.
-  induction l as [|a r IH]; intros g ra cs dc Hl HG; [exact HG|].
-  inversion Hl as [|? ? Ha Hr]; subst. cbn [sgi_loop]. rewrite sgr_cons.
-  assert ((a =? 38) || (a =? 48) = false) as E.
-  { unfold sgr_values in Ha. cbn [In] in Ha. repeat (destruct Ha as [Ha|Ha]; [subst a; reflexivity|]). contradiction. }
-  rewrite E. apply IH; [assumption|]. apply sgi_step_rel; assumption.
-Qed.
-
 (* ---------- composition ---------- *)
 Definition cmd_small (c : cmd) : Prop :=
   match c with
